@@ -104,6 +104,11 @@ def step (s : St) (toks : List String) : St × String :=
   | ["flush"] =>
     let (acc, db, p) := s.acc.flush s.db
     ({ s with acc := acc, db := db, persisted := some p }, s!"flushed {p.length} " ++ rootsStr p.roots)
+  | ["recoverself"] =>
+    -- Recover on the object in use: the model's `recover` does not look at the old state
+    let acc := recover s.persisted
+    ({ s with acc := acc, leaves := if s.leaves.size > acc.length then s.leaves.extract 0 acc.length else s.leaves },
+      s!"recovered {acc.length} {acc.roots.length}")
   | ["recover"] =>
     let acc := recover s.persisted
     ({ s with acc := acc, leaves := if s.leaves.size > acc.length then s.leaves.extract 0 acc.length else s.leaves },
